@@ -43,6 +43,19 @@ func Subst(s string, vars map[string]string) string {
 	return s
 }
 
+// RawNames renders the placeholder "{xe9}" in paths and link targets as the
+// byte 0xe9: a Latin-1 "é", which is not valid UTF-8 but a legal file name.
+// Generated trees carry the placeholder so that they survive JSON.
+func RawNames(t Tree) Tree {
+	out := make(Tree, len(t))
+	for i, n := range t {
+		n.Path = strings.ReplaceAll(n.Path, "{xe9}", "\xe9")
+		n.Target = strings.ReplaceAll(n.Target, "{xe9}", "\xe9")
+		out[i] = n
+	}
+	return out
+}
+
 // Materialise creates the tree under root (root is created if missing).
 // Directory modes and all mtimes are applied bottom-up after the content is in place.
 func Materialise(root string, t Tree, vars map[string]string) error {
